@@ -704,7 +704,9 @@ def c06_jobs(tier, repo):
 
 
 _SCHED_NOTE = ("Real pthreads run the real table code; pthread_rwlock_{rdlock,wrlock,unlock} are interposed at link time "
-               "(--wrap) and modelled inside the scheduler, exactly one thread runs at a time. Schedules are enumerated "
+               "(--wrap) and modelled inside the scheduler, exactly one thread runs at a time. The library's allocator "
+               "is routed through the scheduler too: a release or resize of memory by a thread that holds only read locks "
+               "is a scheduling point (a read lock standing in for a write lock becomes an explorable interleaving). Schedules are enumerated "
                "depth-first with a preemption bound (explore.h). Sequentially consistent interleavings only; the data-race "
                "clause is decided by a separate free-running ThreadSanitizer build of the same thread bodies with the "
                "real locks (hand-offs of a cooperative scheduler would hide races).")
